@@ -84,6 +84,7 @@ def regressions():
         (Nd("Repeat", 0, [L("succ", 0)], n=2), [["start", "pause", "resume", "reset+start"]]),
         (Nd("Par", 0, [L("block", 2), Nd("Wrap", 0, [L("block", 1)])]),
          [["start", "~resume", "-", "stop"], ["start", "~resume", "-", "reset"], ["start", "~resume", "-", "reset+start"]]),
+        (Nd("Par", 0, [L("block", 1), Nd("Repeat", 0, [L("succ", 1, k="Sleep")], n=1)]), [["~pause", "start", "resume", "-", "resume"]]),
         (Nd("Par", 0, [L("never"), L("succ", 1)], to=2), [["start"], ["start", "pause", "resume"]]),
         (Nd("Seq", 0, [L("never")], to=1), [["start"]]),
         (Nd("IfElse", 0, [L("succ", 0), L("never"), None], to=2), [["start"]]),
@@ -155,7 +156,7 @@ def job_from_trace(lines):
         if not ln.startswith("{"):
             continue
         e = json.loads(ln)
-        if e["e"] == "Reset":
+        if e["e"] == "Prog":
             prog = e["prog"]
         elif e["e"] == "Ctl":
             if e.get("mid"):
@@ -201,7 +202,7 @@ def run_checked(ctx):
                            "terminate/signal handlers", "TBOX_ASSERT active (no NDEBUG)"]
     if ctx.replay_path:
         lines = open(ctx.replay_path).read().splitlines()
-        if not any(x.strip().startswith('{"e":"Reset"') for x in lines):
+        if not any(x.strip().startswith('{"e":"Prog"') for x in lines):
             raise vlib.Infra("replay file is a model counterexample (TLC output), not an execution: re-run the tier instead")
         validate(ctx, exe, [job_from_trace(lines)], "replay", "replay of a recorded execution")
         return
@@ -253,7 +254,7 @@ def run_checked(ctx):
         ctx.traces_ok -= n
         ctx.replays_ok += n
     # the same enumeration for a seeded sample of the model-checked programs (BFS, so the run is deterministic for a seed)
-    k = 10 if quick else 120
+    k = 10 if quick else 100
     smp_trees = rnd.sample(d1, k) + rnd.sample(d2, k) + rnd.sample(tmo, k // 2)
     ps = write_progs(ctx, "smp.json", smp_trees)
     behs = ctx.tlc_gen("Flow", "Gen_ActionTree.tla", "Gen_ActionTree.cfg", env={"PROGS": ps})
@@ -266,7 +267,7 @@ def run_checked(ctx):
 
     # ---- 3. code -> spec: seeded random deep programs and scripts -------------------------------------------------------
     jobs = []
-    for i in range(1200 if quick else 20000):
+    for i in range(1200 if quick else 15000):
         dp = rnd.choice((1, 2, 3, 3))
         t = P.random_tree(rnd, dp)
         while P.nleaves(t) > 6:
